@@ -12,6 +12,7 @@ LABELS = ["a", "b", "c", "d", "e", "f", "a1", "ä"]
 REF = st.sampled_from([40, 40, 40, 400]).flatmap(lambda hi: st.integers(0, hi))
 PREF = st.one_of(st.just(-1), REF)  # parent ref incl. the tree itself
 LABEL = st.sampled_from(LABELS)
+LABEL_NEW = st.sampled_from(LABELS + LABELS + ["~f"])  # new data of add / set_data ("~f": see build._ODD_INTS)
 IDS = st.sampled_from(["X1", "X2", 1000, 1001, 0])
 ADD_IDS = st.sampled_from(["X1", "X2", 1000, 1001, 0])  # 0: a legal falsy explicit id (only for new nodes)
 KINDS = st.sampled_from(["child", "x", "y"])
@@ -71,7 +72,7 @@ def op_strategies(typed=False, explicit_ids=True, fresh=False, valid_before_only
     O = new_opts(typed, explicit_ids, fresh)
     tri = st.sampled_from([None, True, False])
     return {
-        "add": st.tuples(st.just("add"), PREF, LABEL, B, O).map(list),
+        "add": st.tuples(st.just("add"), PREF, LABEL_NEW, B, O).map(list),
         "append_child": st.tuples(st.just("append_child"), REF, LABEL, O).map(list),
         "prepend_child": st.tuples(st.just("prepend_child"), REF, LABEL, O).map(list),
         "prepend_sibling": st.tuples(st.just("prepend_sibling"), REF, LABEL, O).map(list),
@@ -93,7 +94,7 @@ def op_strategies(typed=False, explicit_ids=True, fresh=False, valid_before_only
         "clear": st.just(["clear"]),
         "del": st.tuples(st.just("del"), REF, st.sampled_from(["data", "data", "data_id", "node_id", "absent"])).map(list),
         "sort": st.tuples(st.just("sort"), st.integers(-1, 40), st.sampled_from(["default", "name", "rev-name", "data_id", "len"]), st.booleans(), tri).map(list),
-        "set_data": st.tuples(st.just("set_data"), REF, st.one_of(st.none(), LABEL, LABEL, st.just("=")), st.one_of(st.none(), st.none(), IDS, st.just("=")), tri,
+        "set_data": st.tuples(st.just("set_data"), REF, st.one_of(st.none(), LABEL_NEW, LABEL_NEW, st.just("=")), st.one_of(st.none(), st.none(), IDS, st.just("=")), tri,
                               st.just(bool(fresh)) if not fresh else st.booleans()).map(list),
         "rename": st.tuples(st.just("rename"), REF, LABEL).map(list),
         "meta": st.tuples(st.just("meta"), REF, st.sampled_from(["set", "set", "clear", "update", "replace"]),
